@@ -26,10 +26,15 @@ def kind? : Sexp → Option FnKind
   | .atom "static" => some .static
   | _ => none
 
+/-- `(fn kind (pos...) (kwonly...) varargs varkw posonly)`; the last field may be missing (= 0) -/
 def fn? : Sexp → Option FnDecl
   | .list [.atom "fn", k, .list pos, .list kwo, va, vk] => do
     some { kind := (← kind? k),
            sig := { pos := (← pos.mapM param?), kwonly := (← kwo.mapM param?), varargs := (← va.bool?), varkw := (← vk.bool?) } }
+  | .list [.atom "fn", k, .list pos, .list kwo, va, vk, po] => do
+    some { kind := (← kind? k),
+           sig := { pos := (← pos.mapM param?), kwonly := (← kwo.mapM param?), varargs := (← va.bool?), varkw := (← vk.bool?),
+                    posonly := (← po.nat?) } }
   | _ => none
 
 def recv? : Sexp → Option Recv
